@@ -5,7 +5,8 @@
                       recovery, Origin name + TypeArgs for instances), context.funcName
                       (choice of the package: origin package for instances, fn.Pkg, else the
                       package being compiled), context.varName (FullName)
-     ssa/type.go      FuncName (PathOf(pkg).recv.name, recv = NamedName or its parenthesised pointer form)
+     ssa/type.go      FuncName (PathOf(pkg).recv.name, recv = NamedName or its parenthesised pointer form;
+                      fixed code: a receiver type of another package is written (rpkg.NamedName))
      ssa/abi/abi.go   FullName, PathOf (patch prefix stripped), NamedName, TypeArgs,
                       typeArgString (reused from C07.Model: targ_str, named_name, path_of)
      go/ssa           Function.Name: F, F$1$2 (anonymous functions, 1-based, nested),
@@ -86,14 +87,26 @@ Definition recv_str (ptr : bool) (tname : str) (ta : option str) : str :=
 
 Definition wk_str (k : wkind) : str := match k with WThunk => s_thunk | WBound => s_bound end.
 
-Definition name_of (c : core (option str)) : str :=
+(* the receiver of a wrapper whose type lives in another package q (fixed code):
+   open-paren q.NamedName close-paren, resp. open-paren star q.NamedName close-paren *)
+Definition qrecv_str (ptr : bool) (q tname : str) (ta : option str) : str :=
+  (if ptr then s_lpstar else [c_lp]) ++ q ++ [c_dot] ++ tname ++ brk ta ++ [c_rp].
+
+(* fixed = true: ssa.FuncName after the fix "keep the package of a foreign receiver in the
+   name of a thunk / bound wrapper" (PathOf(receiver package) <> PathOf(pkg), org = false);
+   fixed = false: the code before it (the receiver is rendered by its bare type name) *)
+Definition wrap_recv_str (fixed : bool) (cp rp : str) (ptr : bool) (t : str) (ta : option str) : str :=
+  if fixed && negb (str_eqb (path_of rp) (path_of cp)) then qrecv_str ptr (path_of rp) t ta
+  else recv_str ptr t ta.
+
+Definition name_of (fixed : bool) (c : core (option str)) : str :=
   match c with
   | EFunc p f cl ta => path_of p ++ [c_dot] ++ f ++ clos_str cl ++ brk ta
   | EMethod p ptr t ta m cl =>
       path_of p ++ [c_dot] ++ recv_str ptr t ta ++ [c_dot] ++ m ++ clos_str cl
       ++ (match cl with [] => [] | _ => brk ta end)
-  | EWrap cp k _ ptr t ta m =>
-      path_of cp ++ [c_dot] ++ recv_str ptr t ta ++ [c_dot] ++ m ++ wk_str k
+  | EWrap cp k rp ptr t ta m =>
+      path_of cp ++ [c_dot] ++ wrap_recv_str fixed cp rp ptr t ta ++ [c_dot] ++ m ++ wk_str k
   | EGlobal p v => path_of p ++ [c_dot] ++ v
   | EInit p n => path_of p ++ [c_dot] ++ s_init ++ [c_hash] ++ dec n
   | ERoutine p n => p ++ [c_dot] ++ s_routine ++ [c_dollar] ++ dec n
@@ -109,12 +122,12 @@ Definition render (c : core tys) : core (option str) :=
   | ERoutine p n => ERoutine p n
   end.
 
-Definition core_name (c : core tys) : str := name_of (render c).
+Definition core_name (fixed : bool) (c : core tys) : str := name_of fixed (render c).
 
-Definition link_name (e : entity tys) : str :=
+Definition link_name (fixed : bool) (e : entity tys) : str :=
   match e with
-  | ECore c => core_name c
-  | EStubDecl c => s_stub ++ core_name c
+  | ECore c => core_name fixed c
+  | EStubDecl c => s_stub ++ core_name fixed c
   | EStubPtr s => s_stub ++ s
   end.
 
@@ -169,7 +182,7 @@ Definition wf_core (c : core (option str)) : bool :=
   | ERoutine p n => ok_path p
   end.
 
-(* what equal names can still leave open: the receiver package of a wrapper *)
+(* what equal names leave open before the fix (fixed = false): the receiver package of a wrapper *)
 Definition erase (c : core (option str)) : core (option str) :=
   match c with
   | EWrap cp k _ ptr t ta m => EWrap cp k [] ptr t ta m
